@@ -1,4 +1,5 @@
 import StrumProofs.C06
+import StrumProofs.DiscHeader
 /-
 C09 — EnumDiscriminants mirrors the enum: same variants, order, repr, discriminants.
 Model: `genDiscriminants`, `discFromArms`, `discOf` (StrumModel/Repr.lean) mirroring enum_discriminants.rs.
